@@ -511,11 +511,26 @@ def respell_conan(s, rng):
         if sep in head:
             i = head.index(sep)
             head, tail = head[:i], head[i:] + tail
-    if r < 0.5:
+    if r < 0.35:
         return head + ".0" + tail
-    if r < 0.7:
+    if r < 0.5:
         return s.upper()
-    return head + ".0.0" + tail
+    if r < 0.6:
+        return head + ".0.0" + tail
+    if r < 0.7:
+        return head + ".00" + tail
+    if r < 0.9:
+        # int() respellings of one numeric item: leading zeros, underscore between digits
+        items = head.split(".")
+        i = rng.randrange(len(items))
+        if items[i].isdigit():
+            if len(items[i]) > 1 and rng.random() < 0.5:
+                items[i] = items[i][0] + "_" + items[i][1:]
+            else:
+                items[i] = rng.choice(["0", "00"]) + items[i]
+        return ".".join(items) + tail
+    # not equal: an empty pre-release / build is still a pre-release / build
+    return s + rng.choice(["-", "+", "-0", "+0"])
 
 
 # ----------------------------------------------------------------------------- openssl
